@@ -49,7 +49,7 @@ ExpOps == {"^", "<<", ">>"}
 WordCmpOps == {"==", "!=", "<", "<=", ">", ">=", "<=>", ">=<"}
 PickOps == {"min", "max"}
 BinOps == CheckedOps \cup BitOps \cup BigOps \cup ExpOps \cup WordCmpOps \cup PickOps
-UnOps == {"neg", "~", "abs", "signum", "even", "odd"}
+UnOps == {"neg", "~", "abs", "signum", "even", "odd", "is_prime"}     \* (is_prime where NumTower specifies it: native-sized values)
 
 IsExp(x) == x.rep = "S" /\ \E n \in ExpVals : IntEq(x.v, IntFromInt(n))
 SpecBin(op, x, y) == IntBin(op, x.v, y.v)
@@ -101,6 +101,7 @@ Emit(o, x, y, res, arity) ==
                                 a |-> x, b |-> y, r |-> res.v, prev |-> prev]))
 ApplyUn == /\ phase = "a"
            /\ \E o \in UnOps :
+                /\ SpecUn(o, a).out = "ok"
                 /\ op' = o /\ r' = MachUn(o, a)
                 /\ Emit(o, a, None, r', 1)
            /\ phase' = "done" /\ UNCHANGED <<a, b, depth, prev>>
@@ -112,7 +113,11 @@ ApplyBin == /\ phase = "ab"
                  /\ Emit(o, a, b, r', 2)
             /\ phase' = "done" /\ UNCHANGED <<a, b, depth, prev>>
 \* the result, in whatever representation the machine left it, becomes the next left operand
+\* (only UN-NORMALISED results - a value that fits a machine word left in big representation - are
+\*  chained: a normalised result is an operand the pool already covers up to its value, and the full
+\*  product of depth 2 is ~10^8 transitions)
 Chain == /\ phase = "done" /\ depth < Depth
+         /\ r.rep = "B" /\ Fits(r.v)
          /\ Len(r.v.m) <= 14
          /\ a' = r /\ phase' = "a" /\ depth' = depth + 1
          /\ prev' = [op |-> op, a |-> a, b |-> b]
